@@ -3739,7 +3739,15 @@ class FuncSorted(ValueFunc):
                     callback_args(key, [result[j]], pos), env, pos
                 )
                 cmpargs = callback_args(cmp, [v, v2], pos)
-                comparison = cmp.execute(cmpargs, env, pos).value
+                comparison = cmp.execute(cmpargs, env, pos)
+                if not comparison.isNumerical():
+                    raise CklRuntimeError(
+                        ValueString("ERROR"),
+                        "The cmp function of sorted must return a number "
+                        "but returned " + comparison.type(),
+                        pos,
+                    )
+                comparison = comparison.value
                 if comparison < 0:
                     temp = result[j + 1]
                     result[j + 1] = result[j]
